@@ -46,6 +46,10 @@ def constants(path):
             vals.add(int(a) << int(b))
     for m in re.findall(r"\b(0[xX][0-9a-fA-F]+|\d+)\b", src):
         vals.add(int(m, 0))
+    # narrow integer types: the number of values they hold is a threshold too (a counter of that type wraps there)
+    for t, n in (("int8", 128), ("uint8", 256), ("int16", 32768), ("uint16", 65536)):
+        if re.search(r"\b%s\b" % t, src):
+            vals.add(n)
     return sorted(v for v in vals if 8 <= v <= 1 << 22)
 
 
